@@ -1824,7 +1824,28 @@ fn run_inner(a: &Args) {
     let streams: Vec<Vec<u8>> = vec![
         b"+OK\r\n:1\r\n".to_vec(), b"$3\r\nfoo\r\n$-1\r\n".to_vec(), b"*2\r\n$1\r\na\r\n:7\r\n+x\r\n".to_vec(), b"*-1\r\n*0\r\n-ERR\r\n".to_vec(),
         b"*1\r\n*1\r\n$2\r\n\r\n\r\n".to_vec(), b"+a\rb\r\n:1\r\n".to_vec(), b":1\r\n$-2\r\n:2\r\n".to_vec(), b":1\r\n:x\r\n:2\r\n".to_vec(), b"+1\r\n?\r\n".to_vec(),
+        // stray separators between / before frames (empty lines, a lone LF / CR, a blank): whatever the
+        // decoder makes of them, it must make the same of them in every fragmentation
+        b"+a\r\n\r\n+b\r\n".to_vec(), b"\r\n+a\r\n".to_vec(), b"\r\n\r\n:1\r\n".to_vec(), b"+a\r\n\n+b\r\n".to_vec(), b"+a\r\n\r+b\r\n".to_vec(), b"+a\r\n +b\r\n".to_vec(),
+        b"$1\r\nx\r\n\r\n$1\r\ny\r\n".to_vec(), b"*1\r\n\r\n:1\r\n".to_vec(),
     ];
+    // EVERY string of up to 3 (thorough: 4) bytes over the grammar alphabet, at every single cut: fragmentation
+    // invariance is a statement about all byte strings, not about valid streams
+    {
+        let k = ALPHABET.len() as u64;
+        for len in 2..=(if quick { 3 } else { 4 }) {
+            for mut idx in 0..k.pow(len as u32) {
+                let mut st = Vec::with_capacity(len);
+                for _ in 0..len {
+                    st.push(ALPHABET[(idx % k) as usize]);
+                    idx /= k;
+                }
+                for codec in [1u8, 2] {
+                    all_cuts(&mut cx, codec, &st, 1, "exhaustive-short");
+                }
+            }
+        }
+    }
     for s in &streams {
         for codec in [1u8, 2] {
             check_frag(&mut cx, codec, s, &[], "short-stream");
@@ -1867,6 +1888,11 @@ fn run_inner(a: &Args) {
                 let len = rng.below(24);
                 let s: Vec<u8> = (0..len).map(|_| if rng.chance(4, 5) { *rng.pick(ALPHABET) } else { rng.below(256) as u8 }).collect();
                 check_both(&mut cx, &s, "random-bytes");
+                if s.len() >= 2 && rng.chance(1, 2) {
+                    let c = rng.range(1, s.len() as u64 - 1) as usize;
+                    check_frag(&mut cx, 1, &s, &[c], "random-bytes");
+                    check_frag(&mut cx, 2, &s, &[c], "random-bytes");
+                }
             }
             4..=5 => {
                 let v = rand_value(&mut rng, 3);
